@@ -63,6 +63,10 @@ pub struct SenderCtl {
 	pub receive_in_pieces: Mutex<Option<std::time::Duration>>,
 	/// messages that were taken from the peer by a `receive` future which was then dropped before it returned them
 	pub receives_dropped_midway: AtomicUsize,
+	/// if set, the next `receive` that has taken a message keeps the THREAD busy for this long (wall clock) before it
+	/// returns the message: on a single-threaded runtime nothing else runs meanwhile, so deadlines measured on the wall
+	/// clock pass while the message is already in the client's hands
+	pub block_thread_once: Mutex<Option<std::time::Duration>>,
 }
 
 pub struct ScriptSender {
@@ -153,6 +157,10 @@ impl TransportReceiverT for ScriptReceiver {
 	fn receive(&mut self) -> impl Future<Output = Result<ReceivedMessage, Self::Error>> + Send {
 		async move {
 			let item = self.rx.recv().await;
+			let block = self.ctl.block_thread_once.lock().unwrap().take();
+			if let Some(d) = block {
+				std::thread::sleep(d);
+			}
 			let pieces = *self.ctl.receive_in_pieces.lock().unwrap();
 			if let Some(d) = pieces {
 				// the message has been taken off the wire; assembling it takes a while
